@@ -88,8 +88,8 @@ var (
 		`@{att}//`, `@{att}/`,
 
 		// Some system glob
-		`:not.active.yet`, `@{busname}`, // dbus unique bus name
-		`:1.[0-9]*`, `@{busname}`, // dbus unique bus name
+		`^"?:not\.active\.yet"?$`, `@{busname}`, // dbus unique bus name
+		`^"?:1\.[0-9]+"?$`, `@{busname}`, // dbus unique bus name (the whole value, not ':16' inside a path)
 		`@{bin}/(|ba|da)sh`, `@{sh_path}`, // collect all shell
 		`@{lib}/modules/[^/]+\/`, `@{lib}/modules/*/`, // strip kernel version numbers from kernel module accesses
 
